@@ -474,7 +474,16 @@ var c16Classes = []c16Class{
 		<-done
 		return nil
 	}},
-	{"info", func(cn *wire.Conn, rng *rand.Rand, i int, _ *c16Env) error {
+	{"info", func(cn *wire.Conn, rng *rand.Rand, i int, env *c16Env) error {
+		if i%6 == 5 {
+			// another emulator of the process is started and closed while INFO is being asked here: what Start() and
+			// Close() set up and tear down process-wide meets the statistics INFO reads
+			if name, _, err := env.e.child.StartEmu(""); err == nil {
+				do(cn, "INFO", "server")
+				env.e.child.CloseEmu(name, 10*time.Second)
+			}
+			return do(cn, "INFO")
+		}
 		if i%2 == 0 {
 			return do(cn, "INFO")
 		}
@@ -682,7 +691,7 @@ func c16RunPairs(r *verdict.Run, pairs []c16Pair, opsPerConn int, shard int) []h
 }
 
 func checkC16(r *verdict.Run) {
-	r.Rule = fmt.Sprintf("the emulator is built with -race and driven by a pair-coverage workload: %d command classes (string/list/hash/set/bitmap read+write, counters, blocking pops, set algebra, keyspace, expiry, SCAN, MULTI/EXEC, transactions with CLIENT LIST/KILL/UNBLOCK/INFO and with SELECT/FLUSHALL inside, DUMP/RESTORE, blocking pops in other databases, databases created on first SELECT, WATCH, WATCH and writes across databases, SELECT, FLUSH, DBSIZE, CLIENT LIST/INFO/SETNAME, CLIENT UNBLOCK/KILL, CLIENT KILL of connections that are just being set up, CLIENT KILL of connections with WATCH/EXEC/DISCARD/CLIENT INFO in flight and self-kill as the last queued command, INFO, HELLO, COMMAND, connection churn, SORT, invalid input); every scheduled pair runs 3+3 connections concurrently on the same keys, "+
+	r.Rule = fmt.Sprintf("the emulator is built with -race and driven by a pair-coverage workload: %d command classes (string/list/hash/set/bitmap read+write, counters, blocking pops, set algebra, keyspace, expiry, SCAN, MULTI/EXEC, transactions with CLIENT LIST/KILL/UNBLOCK/INFO and with SELECT/FLUSHALL inside, DUMP/RESTORE, blocking pops in other databases, databases created on first SELECT, WATCH, WATCH and writes across databases, SELECT, FLUSH, DBSIZE, CLIENT LIST/INFO/SETNAME, CLIENT UNBLOCK/KILL, CLIENT KILL of connections that are just being set up, CLIENT KILL of connections with WATCH/EXEC/DISCARD/CLIENT INFO in flight and self-kill as the last queued command, INFO (while further emulators of the process are started and closed), HELLO, COMMAND, connection churn, SORT, invalid input); every scheduled pair runs 3+3 connections concurrently on the same keys, "+
 		"with the periodic saver on (persist path), a second emulator instance in the same process, SetHook toggled from the host and yields injected around the data store lock; race reports are read from the GORACE log, reduced to the sorted pair of innermost emulator functions. distinct = class pairs whose operations demonstrably overlapped in time", len(c16Classes))
 	n := len(c16Classes)
 	var all []c16Pair
